@@ -44,6 +44,15 @@ def gen(rng, tier):
                                   spec="spec.hkdfkiv %s %s %s" % (hexs(ikm), salt, hexs(ctx))))
     return cases
 
+def extra(ctx):
+    # HKDF values after a failed call / after a call with other arguments (per-thread scratch must not carry over)
+    rng = ctx["rng"]; lines = []
+    for L in [33, 96, 200]:
+        lines.append("oom hkdfe x %s %s %d" % (hexs(contents(rng, 32, "rand")), hexs(contents(rng, 10, "rand")), L))
+    lines.append("oom hkdfx x %s %s" % (hexs(contents(rng, 40, "rand")), hexs(contents(rng, 20, "rand"))))
+    lines.append("oom hkdfkiv x %s %s" % (hexs(contents(rng, 32, "rand")), hexs(contents(rng, 16, "rand"))))
+    return oom_extra(ctx, lines, "HKDF")
+
 def key(case, impl, model):
     p = case.line.split(); return p[0] + " " + " ".join("len=%d" % (0 if x in ("-", "null") else len(x) // 2) for x in p[1:3]) + " " + (p[3] if p[0] == "hkdfe" else "")
 
